@@ -36,8 +36,7 @@ theorem digitVal_digitChar : ∀ d, d < 10 → digitVal (digitChar d) = some d :
 theorem digitChar_not_ws : ∀ d, d < 10 → pyWs (digitChar d) = false := by decide
 theorem digitChar_ne : ∀ d, d < 10 →
     digitChar d ≠ '_' ∧ digitChar d ≠ '-' ∧ digitChar d ≠ '+' ∧ digitChar d ≠ '{' ∧
-    digitChar d ≠ '.' ∧ digitChar d ≠ ':' ∧ digitChar d ≠ '=' ∧ digitChar d ≠ '*' ∧
-    digitChar d ≠ Cell.tmpC := by decide
+    digitChar d ≠ '.' ∧ digitChar d ≠ ':' ∧ digitChar d ≠ '=' ∧ digitChar d ≠ '*' := by decide
 
 def digitsVal (acc : Nat) (s : Str) : Nat :=
   s.foldl (fun a c => a * 10 + (digitVal c).getD 0) acc
